@@ -8,7 +8,9 @@ helper lemmas: `Proofs/Queued.lean`.
 
 `Reach q0 pop workers s`: `s` is reachable from a queue `q0` of resources by **any** number of
 `submit n` calls (waves) interleaved with **any** admissible order of the per-job transitions
-`take / start / endRun / release` — i.e. every schedule of the event loop and every completion order;
+`take / start / endRun / release` and cancellations `cancel` (what `Evaluator.close()` does to every
+task that is not done) — i.e. every schedule of the event loop, every completion order, closes at any
+moment and reuse of the evaluator afterwards;
 no bound on the number of jobs, waves, resources or steps.  Hypotheses: the resources of `q0` are
 pairwise distinct (`q0.Nodup`), and for progress `pop ≤ |q0|` and `workers ≥ 1`.
 -/
@@ -64,7 +66,7 @@ theorem C17_returned {s : QState R} (h : Reach q0 pop workers s) :
       ∃ x ds recv, s.jobs[j]? = some x ∧ x.phase = .returning ds recv ∧ recv = some ds ∧
         s'.queue = s.queue ++ ds ∧
         s'.jobs[j]? = some { x with phase := .finished recv ds }) ∧
-    ((∀ x ∈ s.jobs, isFinished x.phase = true) → s.queue.Perm q0) := by
+    ((∀ x ∈ s.jobs, isEnded x.phase = true) → s.queue.Perm q0) := by
   constructor
   · intro j s' hs
     cases step_spec hs with
@@ -80,8 +82,7 @@ theorem C17_returned {s : QState R} (h : Reach q0 pop workers s) :
       simp only [heldAll, List.flatMap_eq_nil_iff]
       intro x hx
       have := hall x hx
-      cases hp : x.phase <;> simp [hp, isFinished] at this ⊢
-      rfl
+      cases hp : x.phase <;> simp [hp, isEnded] at this ⊢ <;> rfl
     rw [this, List.append_nil] at hcons
     exact hcons
 
@@ -93,17 +94,17 @@ theorem exists_index {l : List (QJob R)} {x : QJob R} (h : x ∈ l) : ∃ j : Na
 /-- **C17 (no deadlock).**  While some job has not finished, some transition of some job is
 enabled — whatever was submitted, in whatever waves, whatever has completed so far. -/
 theorem C17_no_deadlock {s : QState R} (h : Reach q0 pop workers s) (hpop : pop ≤ q0.length)
-    (hw : 0 < workers) (hex : ∃ x ∈ s.jobs, isFinished x.phase = false) :
-    ∃ t s', (∀ n, t ≠ .submit n) ∧ step s t = some s' := by
+    (hw : 0 < workers) (hex : ∃ x ∈ s.jobs, isEnded x.phase = false) :
+    ∃ t s', (∀ n, t ≠ .submit n) ∧ (∀ j, t ≠ .cancel j) ∧ step s t = some s' := by
   have hi := reach_inv h
   by_cases h1 : ∃ (j : Nat) (x : QJob R) (ds : List R) (recv : Option (List R)),
       s.jobs[j]? = some x ∧ x.phase = Phase.returning ds recv
   · obtain ⟨j, x, ds, recv, hx, hp⟩ := h1
-    exact ⟨.release j, _, by simp, by simp only [step, hx, hp]; rfl⟩
+    exact ⟨.release j, _, by simp, by simp, by simp only [step, hx, hp]; rfl⟩
   by_cases h2 : ∃ (j : Nat) (x : QJob R) (ds : List R) (recv : Option (List R)),
       s.jobs[j]? = some x ∧ x.phase = Phase.running ds recv
   · obtain ⟨j, x, ds, recv, hx, hp⟩ := h2
-    exact ⟨.endRun j, _, by simp, by simp only [step, hx, hp]; rfl⟩
+    exact ⟨.endRun j, _, by simp, by simp, by simp only [step, hx, hp]; rfl⟩
   have hnorun : ∀ y ∈ s.jobs, isRunning y.phase = false := by
     intro y hy
     obtain ⟨j, hj⟩ := exists_index hy
@@ -118,7 +119,7 @@ theorem C17_no_deadlock {s : QState R} (h : Reach q0 pop workers s) (hpop : pop 
       intro y hy _
       exact hnorun y hy
     have hlt : runningOn s x.sem < s.workers := by rw [hz, hi.hw]; exact hw
-    exact ⟨.start j, _, by simp, by simp only [step, hx, hp, hlt, if_true]; rfl⟩
+    exact ⟨.start j, _, by simp, by simp, by simp only [step, hx, hp, hlt, if_true]; rfl⟩
   -- nothing is held: the queue is full again, a created job can take its resources
   obtain ⟨x, hxm, hxf⟩ := hex
   obtain ⟨j, hx⟩ := exists_index hxm
@@ -128,7 +129,8 @@ theorem C17_no_deadlock {s : QState R} (h : Reach q0 pop workers s) (hpop : pop 
     | holding ds => exact absurd ⟨j, x, ds, hx, hp⟩ h3
     | running ds recv => exact absurd ⟨j, x, ds, recv, hx, hp⟩ h2
     | returning ds recv => exact absurd ⟨j, x, ds, recv, hx, hp⟩ h1
-    | finished recv md => simp [hp, isFinished] at hxf
+    | finished recv md => simp [hp, isEnded] at hxf
+    | cancelled => simp [hp, isEnded] at hxf
   have hheld : heldAll s = [] := by
     simp only [heldAll, List.flatMap_eq_nil_iff]
     intro y hy
@@ -136,6 +138,7 @@ theorem C17_no_deadlock {s : QState R} (h : Reach q0 pop workers s) (hpop : pop 
     cases hp : y.phase with
     | created => rfl
     | finished recv md => rfl
+    | cancelled => rfl
     | holding ds => exact absurd ⟨k, y, ds, hk, hp⟩ h3
     | running ds recv => exact absurd ⟨k, y, ds, recv, hk, hp⟩ h2
     | returning ds recv => exact absurd ⟨k, y, ds, recv, hk, hp⟩ h1
@@ -143,7 +146,7 @@ theorem C17_no_deadlock {s : QState R} (h : Reach q0 pop workers s) (hpop : pop 
     have := hi.cons.length_eq
     simpa [hheld] using this
   have hle : s.pop ≤ s.queue.length := by rw [hi.hpop, hlen]; exact hpop
-  exact ⟨.take j, _, by simp, by simp only [step, hx, hcreated, hle, if_true]; rfl⟩
+  exact ⟨.take j, _, by simp, by simp, by simp only [step, hx, hcreated, hle, if_true]; rfl⟩
 
 theorem reach_steps {s : QState R} (h : Reach q0 pop workers s) :
     ∀ (ts : List QStep) {s' : QState R}, steps s ts = some s' → Reach q0 pop workers s' := by
@@ -160,18 +163,20 @@ theorem reach_steps {s : QState R} (h : Reach q0 pop workers s) :
       exact ih (.step t h ht) hs
 
 /-- **C17 (progress).**  From every reachable state, with no further submission: (1) every run of
-`k` transitions lowers the progress measure by exactly `k`, so no job can be postponed for ever —
-at most `measure s` transitions remain; (2) a run can only stop when every job has finished, and
-then all resources are back in the queue; (3) such a complete run exists.  Hence any number of
-submitted jobs eventually runs, in any completion order. -/
+`k` transitions (cancellations included) lowers the progress measure by at least `k`, so no job can
+be postponed for ever — at most `measure s` transitions remain; (2) a run can only stop when every
+job has ended, and then all resources are back in the queue; (3) a run of ordinary transitions (no
+cancellation) that completes every job exists.  Hence any number of submitted jobs eventually runs,
+in any completion order. -/
 theorem C17_progress {s : QState R} (h : Reach q0 pop workers s) (hpop : pop ≤ q0.length)
     (hw : 0 < workers) :
     (∀ ts s', (∀ t ∈ ts, ∀ n, t ≠ QStep.submit n) → steps s ts = some s' →
-      ts.length + measure s' = measure s) ∧
-    (∀ ts s', steps s ts = some s' → (∀ t s'', (∀ n, t ≠ QStep.submit n) → step s' t ≠ some s'') →
-      (∀ x ∈ s'.jobs, isFinished x.phase = true) ∧ s'.queue.Perm q0) ∧
-    (∃ ts s', (∀ t ∈ ts, ∀ n, t ≠ QStep.submit n) ∧ steps s ts = some s' ∧
-      (∀ x ∈ s'.jobs, isFinished x.phase = true) ∧ s'.queue.Perm q0) := by
+      ts.length + measure s' ≤ measure s) ∧
+    (∀ ts s', steps s ts = some s' →
+      (∀ t s'', (∀ n, t ≠ QStep.submit n) → (∀ j, t ≠ QStep.cancel j) → step s' t ≠ some s'') →
+      (∀ x ∈ s'.jobs, isEnded x.phase = true) ∧ s'.queue.Perm q0) ∧
+    (∃ ts s', (∀ t ∈ ts, (∀ n, t ≠ QStep.submit n) ∧ (∀ j, t ≠ QStep.cancel j)) ∧
+      steps s ts = some s' ∧ (∀ x ∈ s'.jobs, isEnded x.phase = true) ∧ s'.queue.Perm q0) := by
   refine ⟨?_, ?_, ?_⟩
   · intro ts
     induction ts generalizing s with
@@ -184,51 +189,151 @@ theorem C17_progress {s : QState R} (h : Reach q0 pop workers s) (hpop : pop ≤
       | some s1 =>
         simp only [ht] at hs
         have h1 := ih (.step t h ht) s' (fun t' ht' => hns t' (by simp [ht'])) hs
-        have h2 := measure_step ht (hns t (by simp))
+        have h2 := measure_step_le ht (hns t (by simp))
         simp only [List.length_cons]; omega
   · intro ts s' hs hstuck
     have hr := reach_steps h ts hs
-    have hfin : ∀ x ∈ s'.jobs, isFinished x.phase = true := by
+    have hfin : ∀ x ∈ s'.jobs, isEnded x.phase = true := by
       intro x hx
-      cases hf : isFinished x.phase with
+      cases hf : isEnded x.phase with
       | true => rfl
       | false =>
-        obtain ⟨t, s'', hns, hst⟩ := C17_no_deadlock hr hpop hw ⟨x, hx, hf⟩
-        exact absurd hst (hstuck t s'' hns)
+        obtain ⟨t, s'', hns, hnc, hst⟩ := C17_no_deadlock hr hpop hw ⟨x, hx, hf⟩
+        exact absurd hst (hstuck t s'' hns hnc)
     exact ⟨hfin, (C17_returned hr).2 hfin⟩
-  · -- strong induction on the measure
+  · -- induction on the measure
     generalize hm : measure s = m
     induction m generalizing s with
     | zero =>
-      have hfin : ∀ x ∈ s.jobs, isFinished x.phase = true := by
+      have hfin : ∀ x ∈ s.jobs, isEnded x.phase = true := by
         intro x hx
-        cases hf : isFinished x.phase with
+        cases hf : isEnded x.phase with
         | true => rfl
         | false =>
-          obtain ⟨t, s1, hns, hst⟩ := C17_no_deadlock h hpop hw ⟨x, hx, hf⟩
-          have := measure_step hst hns
+          obtain ⟨t, s1, hns, hnc, hst⟩ := C17_no_deadlock h hpop hw ⟨x, hx, hf⟩
+          have := measure_step hst hns hnc
           omega
       exact ⟨[], s, by simp, rfl, hfin, (C17_returned h).2 hfin⟩
     | succ m ih =>
-      by_cases hall : ∀ x ∈ s.jobs, isFinished x.phase = true
+      by_cases hall : ∀ x ∈ s.jobs, isEnded x.phase = true
       · exact ⟨[], s, by simp, rfl, hall, (C17_returned h).2 hall⟩
-      · have hex : ∃ x ∈ s.jobs, isFinished x.phase = false := by
+      · have hex : ∃ x ∈ s.jobs, isEnded x.phase = false := by
           apply Classical.byContradiction
           intro hne
           apply hall
           intro x hx
-          cases hf : isFinished x.phase with
+          cases hf : isEnded x.phase with
           | true => rfl
           | false => exact absurd ⟨x, hx, hf⟩ hne
-        obtain ⟨t, s1, hns, hst⟩ := C17_no_deadlock h hpop hw hex
+        obtain ⟨t, s1, hns, hnc, hst⟩ := C17_no_deadlock h hpop hw hex
         have hm1 : measure s1 = m := by
-          have := measure_step hst hns; omega
+          have := measure_step hst hns hnc; omega
         obtain ⟨ts, s', hns', hs', hfin, hq⟩ := ih (.step t h hst) hm1
         refine ⟨t :: ts, s', ?_, by simp only [steps, hst]; exact hs', hfin, hq⟩
         intro t' ht'
         rcases List.mem_cons.1 ht' with rfl | ht'
-        · exact hns
+        · exact ⟨hns, hnc⟩
         · exact hns' t' ht'
+
+/-! ### close() -/
+
+/-- job `j` exists and its task is done -/
+def EndedAt (s : QState R) (j : Nat) : Prop := ∃ x, s.jobs[j]? = some x ∧ isEnded x.phase = true
+
+theorem cancel_effect {s s' : QState R} {k : Nat} (h : step s (.cancel k) = some s') :
+    s'.jobs.length = s.jobs.length ∧ EndedAt s' k ∧ ∀ j, j ≠ k → s'.jobs[j]? = s.jobs[j]? := by
+  cases step_spec h with
+  | cancel _ x hx hne =>
+    have hlt : k < s.jobs.length := (List.getElem?_eq_some_iff.1 hx).1
+    refine ⟨by simp [setJob], ⟨{ x with phase := .cancelled }, by simp [setJob, hlt], rfl⟩, ?_⟩
+    intro j hj
+    simp [setJob, List.getElem?_set, Ne.symm hj]
+
+theorem cancel_none {s : QState R} {k : Nat} (h : step s (.cancel k) = none) (hk : k < s.jobs.length) :
+    EndedAt s k := by
+  simp only [step] at h
+  have hx : s.jobs[k]? = some s.jobs[k] := by simp [hk]
+  rw [hx] at h
+  simp only at h
+  split at h
+  · rename_i he; exact ⟨_, hx, he⟩
+  · simp at h
+
+theorem cancelAll_spec : ∀ (order : List Nat) (s : QState R),
+    (cancelAll s order).jobs.length = s.jobs.length ∧
+    (∀ j, j < s.jobs.length → (j ∈ order ∨ EndedAt s j) → EndedAt (cancelAll s order) j) ∧
+    (∀ j, EndedAt s j → (cancelAll s order).jobs[j]? = s.jobs[j]?)
+  | [], s => ⟨rfl, fun j _ hj => by simpa [cancelAll] using hj, fun _ _ => rfl⟩
+  | k :: ks, s => by
+    simp only [cancelAll]
+    cases hk : step s (.cancel k) with
+    | none =>
+      obtain ⟨ih1, ih2, ih3⟩ := cancelAll_spec ks s
+      refine ⟨ih1, ?_, ih3⟩
+      intro j hj hor
+      apply ih2 j hj
+      rcases hor with hmem | he
+      · rcases List.mem_cons.1 hmem with rfl | hmem
+        · exact Or.inr (cancel_none hk hj)
+        · exact Or.inl hmem
+      · exact Or.inr he
+    | some s1 =>
+      obtain ⟨hl, hek, hother⟩ := cancel_effect hk
+      obtain ⟨ih1, ih2, ih3⟩ := cancelAll_spec ks s1
+      have hkeep : ∀ j, EndedAt s j → EndedAt s1 j ∧ s1.jobs[j]? = s.jobs[j]? := by
+        intro j ⟨x, hx, he⟩
+        have hjk : j ≠ k := by
+          rintro rfl
+          cases step_spec hk with
+          | cancel _ y hy hne => rw [hx] at hy; cases hy; rw [he] at hne; cases hne
+        exact ⟨⟨x, (hother j hjk) ▸ hx, he⟩, hother j hjk⟩
+      refine ⟨ih1.trans hl, ?_, ?_⟩
+      · intro j hj hor
+        apply ih2 j (hl ▸ hj)
+        rcases hor with hmem | he
+        · rcases List.mem_cons.1 hmem with rfl | hmem
+          · exact Or.inr hek
+          · exact Or.inl hmem
+        · exact Or.inr (hkeep j he).1
+      · intro j he
+        rw [ih3 j (hkeep j he).1, (hkeep j he).2]
+
+theorem reach_cancelAll {s : QState R} (h : Reach q0 pop workers s) :
+    ∀ order, Reach q0 pop workers (cancelAll s order) := by
+  intro order
+  induction order generalizing s with
+  | nil => exact h
+  | cons k ks ih =>
+    simp only [cancelAll]
+    cases hk : step s (.cancel k) with
+    | none => exact ih h
+    | some s1 => exact ih (.step _ h hk)
+
+/-- **C17 (close).**  `Evaluator.close()` — every task cancelled, in whatever order the event loop
+lets the cancelled tasks run — at any reachable state, jobs being in any mix of phases (waiting for
+resources, holding resources and waiting for a worker, running, returning): afterwards every job has
+ended, the queue holds exactly the initial resources again, jobs that had finished are untouched, and
+the state is reachable — so `C17_exclusive`, `C17_count`, `C17_returned`, `C17_no_deadlock` and
+`C17_progress` hold for everything that follows (further submits, further closes). -/
+theorem C17_close {s : QState R} (h : Reach q0 pop workers s) (order : List Nat)
+    (hall : ∀ j, j < s.jobs.length → j ∈ order) :
+    Reach q0 pop workers (cancelAll s order) ∧
+    (∀ x ∈ (cancelAll s order).jobs, isEnded x.phase = true) ∧
+    (cancelAll s order).queue.Perm q0 ∧
+    (∀ (j : Nat) (x : QJob R), s.jobs[j]? = some x → isEnded x.phase = true →
+      (cancelAll s order).jobs[j]? = some x) ∧
+    (∀ ts s', steps (cancelAll s order) ts = some s' → Reach q0 pop workers s') := by
+  have hr := reach_cancelAll h order
+  obtain ⟨hlen, hend, hkeep⟩ := cancelAll_spec order s
+  have hfin : ∀ x ∈ (cancelAll s order).jobs, isEnded x.phase = true := by
+    intro x hx
+    obtain ⟨j, hj⟩ := exists_index hx
+    have hjl : j < s.jobs.length := hlen ▸ (List.getElem?_eq_some_iff.1 hj).1
+    obtain ⟨y, hy, hye⟩ := hend j hjl (Or.inl (hall j hjl))
+    rw [hj] at hy; cases hy; exact hye
+  refine ⟨hr, hfin, (C17_returned hr).2 hfin, ?_, fun ts s' hs => reach_steps hr ts hs⟩
+  intro j x hx he
+  rw [hkeep j ⟨x, hx, he⟩]; exact hx
 
 /-! ## Non-vacuity: a concrete reachable state (queue of 3, two resources per job, one worker;
 job 0 ran with `[10, 11]` and returned them, job 1 runs with `[12, 10]`, the second wave's job 2 waits) -/
@@ -256,6 +361,16 @@ example : ∃ s, Reach [10, 11, 12] 2 1 s ∧ s.jobs.length = 3 ∧ measure s = 
       rw [hs] at this; simp at this
 /-- a third job cannot take resources while only one is free (it waits — the pinned tree raised) -/
 example : (steps (init [10, 11, 12] 2 1) [.submit 2, .take 0, .take 1]) = none := by decide +kernel
+
+/-- close while job 0 has finished, job 1 is running with `[12, 10]` and job 2 waits for resources:
+everything is back, then the evaluator is reused (a new wave takes `[11, 12]`) -/
+example : ((steps (init [10, 11, 12] 2 1) exSteps).map (fun s => cancelAll s [0, 1, 2])).map
+      (fun s => (s.queue, s.jobs.map (·.phase))) =
+    some ([11, 12, 10], [.finished (some [10, 11]) [10, 11], .cancelled, .cancelled]) := by decide +kernel
+example : (((steps (init [10, 11, 12] 2 1) exSteps).map (fun s => cancelAll s [2, 1, 0])).bind
+      (fun s => steps s [.submit 1, .take 3, .start 3])).map (fun s => (s.queue, s.jobs.map (·.phase))) =
+    some ([10], [.finished (some [10, 11]) [10, 11], .cancelled, .cancelled, .running [11, 12] (some [11, 12])]) := by
+  decide +kernel
 
 /-! ## Regression witnesses: the pinned tree's model (`stepPre`) violates the property
 (DESIGN section 6 items 12a, 12b; replayed on the real code from `corpus/C17`) -/
